@@ -146,7 +146,8 @@ Section C06_state.
     t = stage hk hs trimkey s major minor.
   Proof. exact (stage_canonical hk hs trimkey hk_valid s major minor t). Qed.
 
-  (* ... and that content is normalise (abs s) — reopen_reads_back: for every state reached by state operations from a
+  (* ... and that content is what reopen_reads_back states (there is no `normalise` function in Coq; the normal form is
+     spelled out in the theorem) — reopen_reads_back: for every state reached by state operations from a
      legal base (well-formed tries, no empty account stored; Nil is one, and Stage re-establishes it), the state
      re-opened on the committed root reads, for every address: the empty account with empty storage if the account
      is empty at Stage (empty accounts are dropped with their storage: account.go IsEmpty/saveAccount), and otherwise
@@ -222,6 +223,43 @@ Section C06_state.
   Proof.
     intros Hb Hsec H1 H2 s1 s2 Hc. f_equal.
     exact (state_root_content_lemma hk hs trimkey hk_valid hk_inj hs_valid hs_inj base codes ops1 ops2 ma1 mi1 ma2 mi2 Hb Hsec H1 H2 Hc).
+  Qed.
+
+  (* the same with the flag stated on the states BEFORE Stage (named_storage: the account is not empty and a slot was
+     written in the block under the current barrier, or the record names a storage trie already); named_storage_flag is
+     the equivalence with the committed leaf.  Both histories start from the same base and code store by design: the
+     statement is about one block built on one parent state. *)
+  Theorem named_storage_flag base codes ops major minor a :
+    base_ok hk base -> Forall state_op ops ->
+    let s := run_state hk hs ops (open base codes) in
+    a_sroot (get_account hk hs (commit_reopen hk hs trimkey s major minor) a) = None <-> ~ named_storage hk hs s a.
+  Proof.
+    intros Hb Hops.
+    destruct (reachable_invs hk hs base codes ops Hops) as [A [B [C D]]].
+    apply (named_storage_spec hk hs trimkey hk_valid hk_inj hs_valid hs_inj _ major minor A B C). rewrite D. exact Hb.
+  Qed.
+
+  Theorem state_root_depends_only_on_content_pre (R : Type) (root : node caccount -> R) base codes ops1 ops2 ma1 mi1 ma2 mi2 :
+    base_ok hk base -> secure_base hk hs base -> Forall state_op ops1 -> Forall state_op ops2 ->
+    let s1 := run_state hk hs ops1 (open base codes) in
+    let s2 := run_state hk hs ops2 (open base codes) in
+    (forall a, same_fields (get_account hk hs s1 a) (get_account hk hs s2 a) /\
+               (forall k, get_raw_storage hk hs s1 a k = get_raw_storage hk hs s2 a k) /\
+               (named_storage hk hs s1 a <-> named_storage hk hs s2 a)) ->
+    root (cview (stage hk hs trimkey s1 ma1 mi1)) = root (cview (stage hk hs trimkey s2 ma2 mi2)).
+  Proof.
+    intros Hb Hsec H1 H2 s1 s2 Hc. f_equal.
+    exact (state_root_content_pre_lemma hk hs trimkey hk_valid hk_inj hs_valid hs_inj base codes ops1 ops2 ma1 mi1 ma2 mi2 Hb Hsec H1 H2 Hc).
+  Qed.
+
+  (* stage_root_ignores_metadata at staged tries (any two states on well-formed bases, any versions) *)
+  Theorem staged_roots_ignore_metadata (R : Type) (root : node caccount -> R) s1 s2 ma1 mi1 ma2 mi2 :
+    wfc aleaf (st_base s1) -> wfc aleaf (st_base s2) ->
+    (forall k, vkey k -> option_map cview_leaf (trie_get aleaf (stage hk hs trimkey s1 ma1 mi1) k) =
+                         option_map cview_leaf (trie_get aleaf (stage hk hs trimkey s2 ma2 mi2) k)) ->
+    root (cview (stage hk hs trimkey s1 ma1 mi1)) = root (cview (stage hk hs trimkey s2 ma2 mi2)).
+  Proof.
+    intros W1 W2 H. apply stage_root_ignores_metadata; auto; apply (stage_wf hk hs trimkey hk_valid); auto.
   Qed.
 
   (* the staged trie holds secure keys only and its storage tries no empty value: `secure_base` is inductive over chains *)
@@ -347,3 +385,6 @@ Print Assumptions stage_root_ignores_metadata.
 Print Assumptions staged_storage_root.
 Print Assumptions state_root_depends_only_on_content.
 Print Assumptions stage_keeps_secure_base.
+Print Assumptions named_storage_flag.
+Print Assumptions state_root_depends_only_on_content_pre.
+Print Assumptions staged_roots_ignore_metadata.
